@@ -19,9 +19,9 @@ class Inapplicable(Exception):
 KINDS = ["cell_number", "surface_number", "material_number", "transform_number",
          "surface_constant", "density", "importance", "volume", "title", "fraction",
          "tr_displacement", "universe_number", "material_assign",
-         "cell_universe", "fill_universe", "lattice", "boundary", "thermal_law", "tr_degrees", "surface_transform"]
-# "placement" (problem.print_in_data_block[key] = bool) is implemented below but not drawn by default: where per-cell
-# data are written is property C09's subject, and its open defects would be re-found here
+         "cell_universe", "fill_universe", "lattice", "boundary", "thermal_law", "tr_degrees", "surface_transform", "placement"]
+# "placement" = problem.print_in_data_block[key] = bool: which block per-cell data are written in does not change what
+# the file denotes (C09's subject), but it rewrites every cell card and the data-block vectors: an edit like any other
 
 
 def gen_program(rng, meta, n=None, kinds=None):
@@ -290,6 +290,8 @@ def apply(h, e):
     if k == "placement":
         if pr.print_in_data_block[e["key"].upper()] == bool(e["data_block"]):
             return False, []
+        if not _placement_plain(pr, e["key"], bool(e["data_block"])):
+            return False, []      # outside this family's quantifier: see _placement_plain
         pr.print_in_data_block[e["key"].upper()] = bool(e["data_block"])
         return True, [("placement", e["key"], bool(e["data_block"]))]
     if k == "surface_transform":
@@ -316,6 +318,39 @@ def apply(h, e):
         t.is_in_degrees = bool(e["value"])
         return True, [("value", 2, t.number, ("degrees",), bool(e["value"]))]
     raise ValueError(k)
+
+
+_MODKEY = {"imp": r"\*?imp:\S+", "vol": r"vol", "u": r"u", "fill": r"\*?fill", "lat": r"lat"}
+
+
+def _placement_plain(pr, key, to_data_block):
+    """Moving per-cell data between the blocks is property C09's subject; this family only draws it on problems
+    whose layout keeps C09's open defects out: towards the cells only when every data-block card of that kind is one
+    physical line without a comment (in it or directly after it) and within the column limit; towards the data block
+    only when no cell has a comment or a line end between the key and its value."""
+    import re
+    from montepy.constants import get_max_line_length
+    limit = get_max_line_length(pr.mcnp_version)
+    pat = re.compile(r"^\s{0,4}" + _MODKEY[key] + r"(\s|=|$)", re.I)
+    if not to_data_block:
+        from montepy.utilities import is_comment
+        prev = []
+        for obj in pr._original_inputs:
+            lines = getattr(obj, "input_lines", None) or []
+            if lines and pat.match(lines[0]):
+                if len(lines) != 1 or "$" in lines[0] or "&" in lines[0] or len(lines[0].rstrip()) > limit - 1:
+                    return False
+                if prev and is_comment(prev[-1]):
+                    return False          # a comment line directly before the card is handed to it on read
+            prev = lines or prev
+        return True
+    inner = re.compile(r"(^|\s)" + _MODKEY[key] + r"\s*=?\s*(\$.*)?$", re.I)
+    for cell in pr.cells:
+        inp = getattr(cell, "_input", None)
+        for l in (inp.input_lines if inp is not None else []):
+            if inner.search(l.rstrip()):
+                return False
+    return True
 
 
 def apply_program(pr, prog, observe=None):
